@@ -786,7 +786,7 @@ func e2eDesc(c e2eCase, run *e2eRun) string {
 		if len(msg) > 24 {
 			msg = msg[:24] + "..."
 		}
-		fmt.Fprintf(&b, "%9.3fms %-13s %-8s conn=%d dst=%s value=%v %s\n", float64(e.TNS-run.Spawn.UnixNano())/1e6, e.Ev, e.Iface, e.Conn, e.Dst, e.Value, msg)
+		fmt.Fprintf(&b, "%9.3fms %-13s %-8s conn=%d dst=%s%s value=%v %s\n", float64(e.TNS-run.Spawn.UnixNano())/1e6, e.Ev, e.Iface, e.Conn, e.Dst, e.From, e.Value, msg)
 	}
 	fmt.Fprintf(&b, "notifications: %q\nstderr:\n%s", run.Notes, firstN(run.Stderr, 3000))
 	return b.String()
@@ -1027,7 +1027,7 @@ func e2eTraffic(pfx string, monitor, inconsistency, counters bool) e2eOracle {
 		}
 		readAt := func(iface, from string) (float64, bool) {
 			for _, e := range run.Events {
-				if e.Ev == "read" && e.Iface == iface && e.Dst == from {
+				if e.Ev == "read" && e.Iface == iface && e.From == from {
 					return float64(e.TNS) / 1e9, true
 				}
 			}
